@@ -27,6 +27,10 @@ def angularSpectrum(inputComplexAmp, wvl, inputSpacing, outputSpacing, z):
     if z==0:
         return inputComplexAmp
 
+    #scalars as Python floats: a numpy.float32 wavelength / spacing / distance
+    #would keep all the scalar arithmetic below in single precision
+    wvl, inputSpacing, outputSpacing, z = float(wvl), float(inputSpacing), float(outputSpacing), float(z)
+
     N = inputComplexAmp.shape[0] #Assumes Uin is square.
     k = 2*numpy.pi/wvl     #optical wavevector
 
@@ -74,6 +78,8 @@ def oneStepFresnel(Uin, wvl, d1, z):
     Returns:
         ndarray: Complex ampltitude after propagation
     """
+    wvl, d1, z = float(wvl), float(d1), float(z)   #(see angularSpectrum)
+
     N = Uin.shape[0]    #Assume square grid
     k = 2*numpy.pi/wvl  #optical wavevector
 
@@ -108,6 +114,8 @@ def twoStepFresnel(Uin, wvl, d1, d2, z):
     Returns:
         ndarray: Complex ampltitude after propagation
     """
+
+    wvl, d1, d2, z = float(wvl), float(d1), float(d2), float(z)   #(see angularSpectrum)
 
     N = Uin.shape[0] #Number of grid points
     k = 2*numpy.pi/wvl #optical wavevector
@@ -185,6 +193,8 @@ def lensAgainst(Uin, wvl, d1, f):
     Returns:
         ndarray: Output complex amplitude
     '''
+
+    wvl, d1, f = float(wvl), float(d1), float(f)   #(see angularSpectrum)
 
     N = Uin.shape[0] #Assume square grid
     k = 2*numpy.pi/wvl  #Optical Wavevector
